@@ -9,9 +9,10 @@ from ..stubs import sched as S
 from .. import loader
 from . import thr, tok
 
-BOUNDS = {"quick": [dict(K=3, obs=1, pre=2, to=1), dict(K=2, obs=2, pre=1, to=1, log=True), dict(K=4, obs=1, pre=1, to=1, log=True)],
+BOUNDS = {"quick": [dict(K=3, obs=1, pre=2, to=1), dict(K=2, obs=2, pre=1, to=1, log=True), dict(K=4, obs=1, pre=1, to=1, log=True),
+                    dict(K=3, obs=1, pre=1, to=1, log=True, printer=True)],
           "thorough": [dict(K=5, obs=1, pre=2, to=2), dict(K=3, obs=2, pre=2, to=1, log=True), dict(K=4, obs=1, pre=3, to=1), dict(K=3, obs=3, pre=1, to=1),
-                       dict(K=6, obs=1, pre=1, to=1, log=True)]}
+                       dict(K=6, obs=1, pre=1, to=1, log=True), dict(K=4, obs=1, pre=2, to=1, log=True, printer=True)]}
 
 
 class RecLogger:
@@ -28,7 +29,7 @@ def sig(regs):
     return [(round(r.meta.start * thr.SR), round(r.meta.end * thr.SR), bytes(r.data)) for r in regs]
 
 
-def harness(L, K, nobs, max_pre, max_to, log=False):
+def harness(L, K, nobs, max_pre, max_to, log=False, printer=False):
     W, core, util = L.modules["workers"], L.modules["core"], L.modules["util"]
     Obs = thr.make_observer_class(W)
     data = thr.tagged_audio(K)
@@ -36,18 +37,23 @@ def harness(L, K, nobs, max_pre, max_to, log=False):
     def path(e):
         s = S.Sched(e, max_timeouts=max_to, max_preempt=max_pre)
         val = thr.window_validator(data)
-        meta = dict(K=K, obs=nobs, pre=max_pre, to=max_to, log=log)
+        meta = dict(K=K, obs=nobs, pre=max_pre, to=max_to, log=log, printer=printer)
         e.on_budget = lambda m: mk(m, meta, s)
         outcome = None
         obs = []
         try:
             reader = util.AudioReader(data, block_dur=0.1, sr=thr.SR, sw=thr.SW, ch=thr.CH)
             obs = [Obs() for _ in range(nobs)]
-            tw = W.TokenizerWorker(reader, obs, logger=RecLogger() if log else None, validator=val, **thr.SPLIT_KW)
+            printed = []
+            allobs = list(obs)
+            if printer:
+                W.print = lambda *a, **k: printed.append(" ".join(str(x) for x in a))
+                allobs.append(W.PrintWorker("{id} {start} {end}", "%S"))
+            tw = W.TokenizerWorker(reader, allobs, logger=RecLogger() if log else None, validator=val, **thr.SPLIT_KW)
             s.private.add(id(tw._inbox))
             tw.start_all()
             tw.join()
-            for o in obs:
+            for o in allobs:
                 o.join()
             outcome = ("done", [[(i, sig([r])[0]) for i, r in o.got] for o in obs], [(d.id, d.start, d.end, d.duration) for d in tw.detections],
                        all(t.finished for t in s.threads))
@@ -57,6 +63,10 @@ def harness(L, K, nobs, max_pre, max_to, log=False):
             s.cleanup()
         want = sig(list(core.split(data, sr=thr.SR, sw=thr.SW, ch=thr.CH, analysis_window=0.1, validator=thr.window_validator(data), **thr.SPLIT_KW)))
         fails = judge(outcome, want)
+        if printer and not fails:
+            exp = ["%d %.3f %.3f" % (i, a / thr.SR, b / thr.SR) for i, (a, b, _) in enumerate(want, 1)]
+            if printed != exp:
+                fails = ["PrintWorker printed %s, expected %s" % (printed, exp)]
         if not fails:
             return {"status": "ok", "detections": len(want), "schedule_len": len(s.log)}
         m = e.model()
@@ -106,11 +116,16 @@ def replay_fn(c):
     try:
         reader = util.AudioReader(data, block_dur=0.1, sr=thr.SR, sw=thr.SW, ch=thr.CH)
         obs = [Obs() for _ in range(c["obs"])]
-        tw = W.TokenizerWorker(reader, obs, logger=RecLogger() if c.get("log") else None, validator=val, **thr.SPLIT_KW)
+        printed = []
+        allobs = list(obs)
+        if c.get("printer"):
+            W.print = lambda *a, **k: printed.append(" ".join(str(x) for x in a))
+            allobs.append(W.PrintWorker("{id} {start} {end}", "%S"))
+        tw = W.TokenizerWorker(reader, allobs, logger=RecLogger() if c.get("log") else None, validator=val, **thr.SPLIT_KW)
         s.private.add(id(tw._inbox))
         tw.start_all()
         tw.join()
-        for o in obs:
+        for o in allobs:
             o.join()
         outcome = ("done", [[(i, sig([r])[0]) for i, r in o.got] for o in obs], [(d.id, d.start, d.end, d.duration) for d in tw.detections],
                    all(t.finished for t in s.threads))
@@ -120,6 +135,10 @@ def replay_fn(c):
         s.cleanup()
     want = sig(list(core.split(data, sr=thr.SR, sw=thr.SW, ch=thr.CH, analysis_window=0.1, validator=thr.concrete_validator(data, c["valid"]), **thr.SPLIT_KW)))
     fails = judge(outcome, want)
+    if c.get("printer") and not fails:
+        exp = ["%d %.3f %.3f" % (i, a / thr.SR, b / thr.SR) for i, (a, b, _) in enumerate(want, 1)]
+        if printed != exp:
+            fails = ["PrintWorker printed %s, expected %s" % (printed, exp)]
     if not fails:
         return []
     kind = "deadlock or non-termination" if outcome[0] != "done" else ("thread left running" if "terminate" in fails[0] else "observer misses, repeats or reorders detections")
@@ -150,7 +169,7 @@ def run(rep):
                        "time-outs fire only on an empty queue, at most `to` times per worker", "datetime.now() left real"]
     rep.outside = ["more windows / observers / pre-emptions than stated", "real-time effects"]
     for cf in cfgs:
-        hn = "sched[K=%d,obs=%d,pre=%d,to=%d%s]" % (cf["K"], cf["obs"], cf["pre"], cf["to"], ",logger" if cf.get("log") else "")
-        ex = explore(harness(L, cf["K"], cf["obs"], cf["pre"], cf["to"], cf.get("log", False)), max_decisions=3000, path_wall_s=30)
+        hn = "sched[K=%d,obs=%d,pre=%d,to=%d%s%s]" % (cf["K"], cf["obs"], cf["pre"], cf["to"], ",logger" if cf.get("log") else "", ",PrintWorker" if cf.get("printer") else "")
+        ex = explore(harness(L, cf["K"], cf["obs"], cf["pre"], cf["to"], cf.get("log", False), cf.get("printer", False)), max_decisions=3000, path_wall_s=30)
         rep.add_exploration(hn, ex, bounds=cf)
         tok.handle_cex(rep, hn, ex, replay_fn)
